@@ -38,6 +38,7 @@ pub enum UKind {
     /// An opaque call that takes an object out (try_remove): while it runs one
     /// queued object may already have left.
     Remove,
+    Close,
     Other,
 }
 
@@ -124,9 +125,12 @@ impl UWorld {
         let n = self.in_pool();
         let a = self.adding();
         let leaving = self.calls.values().filter(|c| c.kind == UKind::Remove).count();
-        for c in self.calls.values_mut() {
+        let own_adding: Vec<bool> = self.calls.values().map(|c| c.obj.map_or(false, |id| self.objs[id].alive && matches!(self.objs[id].loc, ULoc::Adding(_)))).collect();
+        for (c, own) in self.calls.values_mut().zip(own_adding) {
             c.min_in = c.min_in.min(n.saturating_sub(leaving));
-            c.max_in = c.max_in.max(n + a);
+            // the object this very call is trying to add does not occupy a
+            // slot as far as "was the pool full during the call" goes
+            c.max_in = c.max_in.max(n + a - usize::from(own));
         }
         if n > self.ms {
             let ms = self.ms;
@@ -489,12 +493,27 @@ fn exec(pool: &Pool<UObj>, op: &UOp, me: usize) {
         }),
         UOp::Close => guarded(me, "close", || {
             trace!("  caller {} close()", me);
-            u(|w| {
-                w.begin(me, UKind::Other, None);
+            // objects sitting in the queue while nothing but close() calls is
+            // in progress: this close() must not return before they are gone
+            let queued_before: Option<Vec<usize>> = u(|w| {
+                let only_closes = w.calls.values().all(|c| c.kind == UKind::Close);
+                w.begin(me, UKind::Close, None);
                 w.close_begun = true;
+                only_closes.then(|| w.objs.iter().enumerate().filter(|(_, o)| o.alive && o.loc == ULoc::Queue).map(|(i, _)| i).collect())
             });
             pool.close();
+            let closed_now = pool.is_closed();
             u(|w| {
+                if !closed_now {
+                    w.violate(&["C12"], "is-closed-false", "is_closed() is false right after close() returned".into());
+                }
+                if let Some(q) = queued_before {
+                    let only_closes = w.calls.iter().all(|(_, c)| c.kind == UKind::Close);
+                    let left: Vec<usize> = q.into_iter().filter(|i| w.objs[*i].alive && w.objs[*i].loc == ULoc::Queue).collect();
+                    if only_closes && !left.is_empty() {
+                        w.violate(&["C12"], "close-returned-with-objects", format!("close() returned while the pool still held objects {:?} (only close() calls were in progress)", left));
+                    }
+                }
                 w.close_returned = true;
                 w.end(me);
             });
